@@ -279,11 +279,24 @@ def _edit_step(kind, structured=False):
             after = h.fields["traces"]
             E.prove("C38.StaticEditRequestHandler.handle_trace.records_exactly_this_site",
                     after.has == z3.Store(before.has, addr.t, True))
+            empty_res = E.method(er, "edit", UVal(sub_key, "key"), sub_old, a_call)
+            new_b = h.fields[bkey]
             E.prove("C38.StaticEditRequestHandler.handle_trace.unaddressed_site_is_EmptyRequest_edit", E.Implies(
                 z3.Not(addressed), E.And(
-                    E.I.to_u(got[1]) == E.ctx.fn("tuple_get", U, z3.IntSort(), U)(res_empty, 2) if False else True,
-                    z3.Select(after.val, addr.t) == E.I.to_u(E.method(er, "edit", UVal(sub_key, "key"), sub_old, a_call)[0]),
-                    E.eq(h.fields["weight"], E.I.binop("Add", w0, E.method(er, "edit", UVal(sub_key, "key"), sub_old, a_call)[1])))))
+                    z3.Select(after.val, addr.t) == E.I.to_u(empty_res[0]),
+                    E.eq(h.fields["weight"], E.I.binop("Add", w0, empty_res[1])),
+                    E.I.to_u(got[1]) == E.I.to_u(empty_res[2]),
+                    len(new_b) == 2 and E.eq(new_b[0], b0[0]) and E.I.to_u(new_b[-1]) == E.I.to_u(empty_res[3]))))
+            # an addressed site is edited by ITS sub-request (applied through the site's generative function), with the site's
+            # key, previous sub-trace and argdiffs; weight, retdiff and backward request are that edit's
+            a1 = (g.t, sub_key, sub_old.t, sub_req.t, a.t)
+            E.prove("C38.StaticEditRequestHandler.handle_trace.addressed_site_is_edited_by_its_own_subrequest", E.Implies(
+                addressed, E.And(
+                    z3.Select(after.val, addr.t) == T.edit_tr(*a1),
+                    E.eq(h.fields["weight"], SReal(w0.t + T.edit_w(*a1))),
+                    E.I.to_u(got[1]) == T.edit_rd(*a1),
+                    len(new_b) == 2 and E.eq(new_b[0], b0[0]) and E.I.to_u(new_b[-1]) == T.edit_bwd(*a1))),
+                also=["C06", "C08"])
             E.refutable(f"static.step.{kind}", E.eq(h.fields["weight"], w0))
     return t
 
